@@ -183,7 +183,7 @@ func (a *agg) add(r *RunResult, batch [2]uint64, prop string, raceBuild, alt boo
 
 type driverEnv struct {
 	batch      uint64
-	watchdogs  int32 // runs killed by the wall-clock watchdog so far
+	watchdogs  int32  // runs killed by the wall-clock watchdog so far
 	raceAlt    string // race build with the stock sync.Pool ("" = none)
 	useAlt     bool   // single executions use the alternative race build
 	prop, tier string
@@ -850,17 +850,17 @@ func (e *driverEnv) evidence(pl plan, a *agg, wall, mainWall float64, mainRuns, 
 		rule = "Each run builds 1-3 reports (level x language x vector) and exports generated template programs (valid / broken / character-edited) through ExportWithString, through simulated readers with benign scripts (chunking, stalls, data+EOF, WriterTo) and failing scripts, plus a complete sweep of the failure offset k in [0,len] x {error alone, error with data} for every template of at most 256 bytes, and nil-report / nil-reader cases; every second export operation reads the returned readers only after the following operation's exports (deferred read); reference = text/template itself. distinct_nontrivial counts distinct (fault class, reference verdict, script shape, template class) tuples in which the fault actually fired or the benign script was actually exercised."
 	}
 	cov := map[string]any{
-		"evaluations":         a.runs,
-		"distinct_nontrivial": distinct,
-		"rule":                rule,
-		"samples":             samples,
-		"exhaustive":          false,
-		"operations_executed": a.ops,
+		"evaluations":                a.runs,
+		"distinct_nontrivial":        distinct,
+		"rule":                       rule,
+		"samples":                    samples,
+		"exhaustive":                 false,
+		"operations_executed":        a.ops,
 		"logical_steps_yield_events": a.yields + a.seqYields,
-		"simulated_time":      "not applicable: the library has no clock, timer or timeout; progress is measured in yield events (logical steps)",
-		"context_switches":    a.switches,
-		"preemptions":         a.preempt,
-		"runs_with_preemption": a.withPreempt,
+		"simulated_time":             "not applicable: the library has no clock, timer or timeout; progress is measured in yield events (logical steps)",
+		"context_switches":           a.switches,
+		"preemptions":                a.preempt,
+		"runs_with_preemption":       a.withPreempt,
 		"map_range_executions_under_simulated_order": a.mapRanges,
 		"distinct_run_fingerprints":                  len(a.fps),
 		"distinct_switch_site_pairs":                 len(a.switchPairs),
@@ -893,15 +893,15 @@ func (e *driverEnv) evidence(pl plan, a *agg, wall, mainWall float64, mainRuns, 
 			"writer_to_calls": a.fault.WriterToCalls, "writer_to_short": a.fault.WriterToShort, "nil_reader": a.fault.NilReader,
 			"error_kinds": errKindMap(a.fault.ErrKinds),
 			// state faults and aborted operations (C12, C15)
-			"state_fault_field_reset":               a.counters["state-faults"],
-			"state_fault_field_reset_after_queries": a.counters["state-faults-after-queries"],
-			"state_fault_obliging_queries":          a.counters["state-faults-obliging"],
-			"aborted_decode_receiver_observed":      a.counters["left-behind-observed"],
+			"state_fault_field_reset":                  a.counters["state-faults"],
+			"state_fault_field_reset_after_queries":    a.counters["state-faults-after-queries"],
+			"state_fault_obliging_queries":             a.counters["state-faults-obliging"],
+			"aborted_decode_receiver_observed":         a.counters["left-behind-observed"],
 			"aborted_decode_receiver_in_invalid_state": a.counters["left-behind-invalid-state"],
-			"nil_receiver_sweeps":                   a.counters["nils-sweeps"],
-			"redecode_on_used_receiver":             a.counters["state-changes-redec"],
-			"field_assignment":                      a.counters["state-changes-set"],
-			"deferred_reader_reads":                 a.counters["deferred-reads"],
+			"nil_receiver_sweeps":                      a.counters["nils-sweeps"],
+			"redecode_on_used_receiver":                a.counters["state-changes-redec"],
+			"field_assignment":                         a.counters["state-changes-set"],
+			"deferred_reader_reads":                    a.counters["deferred-reads"],
 		},
 		"cross_process_keys_compared": a.crossShared,
 		"cross_process_keys_seen":     a.crossSeen,
